@@ -170,6 +170,35 @@ class C08(Check):
                     continue
                 ents = [(b"first", 3, 3, 0), (b"odd", us, cs, 8 if us != cs else 0), (b"after", 2, 2, 0)]
                 cases.append(self.foreign_sparse(0, 0, "min", op="bigcopy", ents=ents, verify=1 << 20))
+        # sources whose central ZIP64 blocks carry all three fields (some of them not needed): the copied record keeps
+        # the source's extra field, stale ZIP64 block included, BEHIND the block the writer computes; a reader takes the first
+        for us, cs in ((G + 1, G + 1), (100, G + 1), (G + 1, 100)):
+            ents = [(b"first", 3, 3, 0), (b"odd", us, cs, 8 if us != cs else 0), (b"after", 2, 2, 0)]
+            cases.append(self.foreign_sparse(0, 0, "all", op="bigcopy", ents=ents, verify=1 << 20))
+            cases.append(self.foreign_sparse(0, 0, "after-other", op="bigcopy", ents=ents, verify=1 << 20))
+        # ---- small entries declared large_file: the local ZIP64 block is patched when the entry is closed (original size
+        #      first, compressed size second); byte-exact against the writer model, and read back through the local headers
+        import wprog
+        from wprog import Opts
+        progs = []
+        for m in (0, 8, 12, 93):
+            for pw in (None, b"pw"):
+                progs.append([("file", b"lf-%d" % m, Opts(method=m, large=True, pw=pw)), ("write", b"large_file on a small entry " * 40),
+                              ("file", b"next", Opts()), ("write", b"n"), ("finish",)])
+        progs.append([("extra", b"lfx", Opts(method=8, large=True)), ("endextra",), ("write", b"e" * 500), ("finish",)])
+        progs.append([("aligned", b"lfa", Opts(method=8, large=True), 64), ("write", b"a" * 500), ("finish",)])
+        lines, outs = wprog.with_tables(self.exes["debug"], [dict(ops=o) for o in progs])
+        for l, o, ops in zip(lines, outs, progs):
+            cases.append((l, dict(k="lf-prog")))
+            _, data = wprog.final_bytes(o)
+            if data and not any(op[0] == "file" and op[2].pw for op in ops):
+                cases.append(("stream_vs_seek %s x" % hexs(data), dict(k="lf-stream", impl_only=True)))
+        # ---- append to sparse foreign archives beyond 4 GiB whose central ZIP64 blocks carry more fields than needed:
+        #      the re-emitted records keep the old extra field (stale block included) behind the block the writer computes
+        for S, pre in ((G + 1, 0), (100, G + 5), (G + 1, G)):
+            for layout in ("min", "all", "after-other"):
+                line, meta = self.foreign_sparse(S, pre, layout, op="bigappend", verify=1 << 20)
+                cases.append((line, dict(meta, k="bigappend")))
         return cases
 
     def foreign_sparse(self, S, pre, layout, op="bigr", ents=None, verify=1 << 40):
@@ -232,6 +261,44 @@ class C08(Check):
         if out is None or "PANIC" in out or out.startswith("ABORT") or out == "TIMEOUT":
             return "panic or process death: %s" % (out or "")[:200]
         k = meta["k"]
+        if k == "lf-prog":
+            import wprog
+            calls, data = wprog.final_bytes(out)
+            if not data or any(not (isinstance(c, list) and c[0] == "Ok") for c in (calls or [])):
+                return "a legal large_file program failed: " + out[:120]
+            _, problems = strictzip.validate(data)
+            if problems:
+                return "archive with large_file entries is not valid: " + "; ".join(problems[:3])
+            return None
+        if k == "lf-stream":
+            if not out.startswith("[SAME"):
+                return "large_file entries read through their local headers differ from the directory: " + out[:160]
+            return None
+        if k == "bigappend":
+            p = _parse_obs(out)
+            if not p or not isinstance(p[0], list) or len(p[0]) != 3:
+                return "unexpected output " + out[:160]
+            before, calls, after = p[0]
+            if not isinstance(before, list) or (before and before[0] == "OpenErr"):
+                return None      # the crate does not read this foreign layout in the first place (judged by the bigr cases)
+            if any(not (isinstance(c, list) and c[0] == "Ok") for c in calls) or not calls:
+                return "appending to a readable > 4 GiB archive failed: %s" % (calls,)
+            if not isinstance(after, list) or (after and after[0] in ("OpenErr", "FinishErr")):
+                return "the appended archive cannot be finished / re-opened: %s" % (after,)
+            # listing = [count comment [entries...]] ; every old entry must be listed exactly as before
+            try:
+                b_ents, a_ents = before[-1], after[-1]
+            except Exception:
+                return "unexpected listing"
+            if len(a_ents) != len(b_ents) + 1:
+                return "expected %d old + 1 new entries, got %d" % (len(b_ents), len(a_ents))
+            for x, y in zip(b_ents, a_ents):
+                if x != y:
+                    return "old entry changed by the append: %s -> %s" % (x, y)
+            last = a_ents[-1]
+            if not (isinstance(last, list) and last[1] == "x617070656e646564" and last[-2] == "eof"):
+                return "the appended entry does not read back: %s" % (last,)
+            return None
         if k == "forced":
             m = _parse_obs(out)
             if not m or m[0][0] != "Ok":
